@@ -75,6 +75,55 @@ fn main() {
         }
         // purity: the same ops file from N threads at once; every transcript must equal the first
         // the second translator: facts of the current source as the compiler sees them (tools/extract.py --probe)
+        // seeds whose ChaCha20 stream starts with at least <min> REJECTED candidates of the field sampler (a 254-bit draw is refused
+        // with probability 0.244): computed from the specification only (Keccak-256, ChaCha20, four u64 per candidate, top two
+        // bits cleared, compare with p) — nothing of /repo is called. `zkh find_rej <min> <how many> <first n> <last n>`
+        Some("find_rej") => {
+            use rand_core::{RngCore, SeedableRng};
+            use tiny_keccak::{Hasher, Keccak};
+            let min: usize = args[2].parse().unwrap();
+            let want: usize = args[3].parse().unwrap();
+            let (lo, hi): (u64, u64) = (args[4].parse().unwrap(), args[5].parse().unwrap());
+            // p, little-endian limbs
+            const PL: [u64; 4] = [0x43e1f593f0000001, 0x2833e84879b97091, 0xb85045b68181585d, 0x30644e72e131a029];
+            let nt = 16u64;
+            let found = std::sync::Arc::new(std::sync::Mutex::new(Vec::<(usize, u64)>::new()));
+            let hs: Vec<_> = (0..nt).map(|t| {
+                let found = found.clone();
+                std::thread::spawn(move || {
+                    let mut n = lo + t;
+                    while n < hi {
+                        let seed = format!("member-{}", n);
+                        let mut k = [0u8; 32];
+                        let mut h = Keccak::v256();
+                        h.update(seed.as_bytes());
+                        h.finalize(&mut k);
+                        let mut rng = rand_chacha::ChaCha20Rng::from_seed(k);
+                        let mut depth = 0usize;
+                        loop {
+                            let mut l = [0u64; 4];
+                            for x in l.iter_mut() { *x = rng.next_u64(); }
+                            l[3] &= u64::MAX >> 2;
+                            let mut ge = true;      // l >= p ?
+                            for i in (0..4).rev() { if l[i] != PL[i] { ge = l[i] > PL[i]; break; } }
+                            if !ge { break; }
+                            depth += 1;
+                        }
+                        if depth >= min {
+                            let mut f = found.lock().unwrap();
+                            f.push((depth, n));
+                            if f.len() >= want { break; }
+                        }
+                        if n % 4096 == t && found.lock().unwrap().len() >= want { break; }
+                        n += nt;
+                    }
+                })
+            }).collect();
+            for h in hs { h.join().unwrap(); }
+            let mut f = found.lock().unwrap().clone();
+            f.sort();
+            for (d, n) in f { println!("{} member-{}", d, n); }
+        }
         Some("dump") => {
             for (k, v) in dumpops::dump() {
                 println!("{}\t{}", k, v);
